@@ -308,6 +308,21 @@ def run(P, rep, tier):
             rep.exempt('C15.SHUT', lf, APP_CONSUMED[lf])
             rep.ob('C15.SHUT', 'srm:' + lf, True, f.loc(ev), APP_CONSUMED[lf], nontrivial=False)
             continue
+        # the shutdown must happen whenever the handle exists: thread creation can fail half-way through svt_av1_enc_init, and
+        # the kernels that were already started sit in svt_get_full_object until their FIFO is shut down
+        extra_cond = None
+        for sev, sn in deinit.calls('svt_shutdown_process'):
+            if last_field(strip(sev['e'][2][0])) != lf:
+                continue
+            for kind, cond, line in deinit.ctl_chain(sev):
+                if cond is None or isinstance(cond[0], list):
+                    continue
+                flds = fields_in(cond)
+                if flds - {lf}:
+                    extra_cond = (sev, pstr(strip(cond))[:80])
+        if lf in shut and extra_cond:
+            rep.ob('C15.SHUT', 'srm:' + lf + '/unconditional', False, deinit.loc(extra_cond[0]),
+                   'the shutdown of %s is skipped unless %s: kernels started before a failed thread creation are never released and svt_av1_enc_deinit_handle blocks in pthread_join' % (lf.split('.')[1], extra_cond[1]))
         rep.ob('C15.SHUT', 'srm:' + lf, lf in shut, f.loc(ev),
                'consumer FIFO taken in %s; %s' % (f.name, 'shut down by svt_av1_enc_deinit' if lf in shut else 'NOT shut down by svt_av1_enc_deinit: its thread never leaves svt_get_full_object'))
     rep.floor('C15.SHUT', 12)
